@@ -9,9 +9,14 @@
    (see C18_closed_range_refuted / C18_corner_value below).  The premise is therefore
    tightened to  -2^62 <= h <= 2^62 - 1  (i.e. -2^62 <= h < 2^62): exactly the condition that
    the sum of two honest values stays in the int64 range [-2^63, 2^63 - 1].
-   No assumption whatsoever is made on the Byzantine values (arbitrary Z). *)
-From Coq Require Import ZArith List Sorted Permutation.
-From V Require Import Model.Median Model.MedianAux Proofs.MedianProofs.
+   No assumption whatsoever is made on the Byzantine values (arbitrary Z).
+
+   Section 6 ties the median to the hashgraph model (Model/HgImpl.v get_frame / block_of_frame /
+   commit): the timestamp of every delivered block IS that median, over the famous witnesses of
+   the block's round-received, in every reachable state (Proofs/TidyC18.v). *)
+From Coq Require Import ZArith List Bool Sorted Permutation.
+From V Require Import Model.ZMap Model.Quorum Model.Median Model.MedianAux Model.HgImpl
+  Proofs.MedianProofs Proofs.AdmissionProofs Proofs.BlockInv Proofs.OrderProofs Proofs.TidyC18.
 Import ListNotations.
 Open Scope Z_scope.
 
@@ -162,3 +167,112 @@ Example C18_example_values :
   median [2 ^ 63 - 1; 102; 104; 100; - 2 ^ 63; 103; 101] = 102 /\
   sortZ [3; -1; 2; -1] = [-1; -1; 2; 3] /\ median [3; -1; 2; -1] = 0 /\ median [-3; -4] = -3.
 Proof. vm_compute. repeat split. Qed.
+
+(* ---- 6. end to end: the timestamp of a delivered block ---- *)
+
+(* [hrun]: any sequence of insertion attempts (valid or not) and ProcessSigPool calls from any
+   genesis; hypotheses as in C04 (identifiers determine events, numbered from 0).
+   [fws st r]  = the famous witnesses of round r as the round table of st reports them,
+   [ets st w]  = Body.Timestamp of the stored event w.
+   The timestamp of every delivered block is the median of the timestamps of the famous witnesses
+   of its round-received -- read in the state at hand, at delivery or at any later time: the set
+   is frozen once the round has been processed and stored events keep their body --, it is the
+   frame's timestamp, and these witnesses are stored (admitted) events. *)
+Theorem C18_block_timestamp_is_median : forall all self_ genesis oracle_ ops d,
+  ids_determine all -> Forall (hop_ok all) ops ->
+  let st := hrun (init_hg self_ genesis oracle_) ops in
+  In d (delivered st) ->
+  b_ts d = median (map (ets st) (fws st (b_rr d))) /\
+  b_ts d = f_ts (b_frame d) /\
+  (forall w, In w (fws st (b_rr d)) -> exists ex, get_event st w = Some ex /\ ets st w = e_ts (ev_e ex)).
+Proof. exact block_timestamp_is_median. Qed.
+Print Assumptions C18_block_timestamp_is_median.
+
+(* [fws] is the famous-witness list of the RoundInfo, which exists for every delivered block's
+   round when no pass returned a store error *)
+Theorem C18_famous_witnesses_of_round : forall all self_ genesis oracle_ ops d,
+  ids_determine all -> Forall (hop_ok all) ops ->
+  let st := hrun (init_hg self_ genesis oracle_) ops in
+  failed st = false -> In d (delivered st) ->
+  exists ri, get_round st (b_rr d) = Some ri.
+Proof. exact delivered_round_present. Qed.
+Print Assumptions C18_famous_witnesses_of_round.
+Theorem C18_fws_is_round_info : forall st r ri, get_round st r = Some ri -> fws st r = famous_witnesses ri.
+Proof. exact fws_round. Qed.
+Print Assumptions C18_fws_is_round_info.
+
+(* THE PROPERTY.  [is_byz] marks the Byzantine famous witnesses of the block's round (arbitrary
+   timestamps); the others are honest.  Fewer than half Byzantine + honest timestamps in the
+   no-wrap range => the block timestamp lies between the smallest and the largest honest one. *)
+Theorem C18_block_timestamp_in_honest_range : forall all self_ genesis oracle_ ops d (is_byz : Z -> bool),
+  ids_determine all -> Forall (hop_ok all) ops ->
+  let st := hrun (init_hg self_ genesis oracle_) ops in
+  In d (delivered st) ->
+  let fw := fws st (b_rr d) in
+  let hon := map (ets st) (filter (fun w => negb (is_byz w)) fw) in
+  (2 * length (filter is_byz fw) < length fw)%nat ->
+  (forall h, In h hon -> - 2 ^ 62 <= h <= 2 ^ 62 - 1) ->
+  list_min hon <= b_ts d <= list_max hon.
+Proof. exact block_timestamp_in_honest_range. Qed.
+Print Assumptions C18_block_timestamp_in_honest_range.
+
+(* a fortiori with fewer than a third Byzantine (the protocol's assumption) *)
+Theorem C18_block_timestamp_in_honest_range_third : forall all self_ genesis oracle_ ops d (is_byz : Z -> bool),
+  ids_determine all -> Forall (hop_ok all) ops ->
+  let st := hrun (init_hg self_ genesis oracle_) ops in
+  In d (delivered st) ->
+  let fw := fws st (b_rr d) in
+  let hon := map (ets st) (filter (fun w => negb (is_byz w)) fw) in
+  (3 * length (filter is_byz fw) < length fw)%nat ->
+  (forall h, In h hon -> - 2 ^ 62 <= h <= 2 ^ 62 - 1) ->
+  list_min hon <= b_ts d <= list_max hon.
+Proof. exact block_timestamp_in_honest_range_third. Qed.
+Print Assumptions C18_block_timestamp_in_honest_range_third.
+
+(* with an odd number of famous witnesses no range premise is needed *)
+Theorem C18_block_timestamp_in_honest_range_odd : forall all self_ genesis oracle_ ops d (is_byz : Z -> bool) m,
+  ids_determine all -> Forall (hop_ok all) ops ->
+  let st := hrun (init_hg self_ genesis oracle_) ops in
+  In d (delivered st) ->
+  let fw := fws st (b_rr d) in
+  let hon := map (ets st) (filter (fun w => negb (is_byz w)) fw) in
+  length fw = (2 * m + 1)%nat ->
+  (2 * length (filter is_byz fw) < length fw)%nat ->
+  list_min hon <= b_ts d <= list_max hon.
+Proof. exact block_timestamp_in_honest_range_odd. Qed.
+Print Assumptions C18_block_timestamp_in_honest_range_odd.
+
+(* non-vacuity: three validators gossiping in a ring; event k is created by validator k mod 3;
+   validators 0 and 1 stamp 1000 + 10k, validator 2 is Byzantine and stamps nearly 2^63.  Five
+   blocks are delivered; each round has three famous witnesses, one of them Byzantine; every block
+   timestamp is an honest one (the larger of the two, the median of three with one huge value). *)
+Definition c18_g : peerset := [mkPeer 100 0; mkPeer 101 1; mkPeer 102 2].
+Definition c18_ev (k : Z) : event :=
+  mkEvent k (k mod 3) (k / 3) (if k <? 3 then -1 else k - 3) (if k =? 0 then -1 else k - 1)
+          (if k mod 3 =? 2 then 2 ^ 63 - 1 - k else 1000 + 10 * k)
+          (Z.even (k / 3)) (100 - k) [k] [] [] true.
+Definition c18_all : list event := map c18_ev (zseq 0 30).
+Definition c18_ops : list hop := map HInsert c18_all ++ [HSigPool].
+Definition c18_st : hg := hrun (init_hg 0 c18_g [7; 8; 9; 10; 11; 12; 13; 14; 15]) c18_ops.
+Definition c18_byz (w : Z) : bool := w mod 3 =? 2.
+
+Example C18_example_blocks :
+  ids_determine c18_all /\ Forall (hop_ok c18_all) c18_ops /\ failed c18_st = false /\
+  map (fun d => (b_index d, b_rr d, b_ts d, fws c18_st (b_rr d), map (ets c18_st) (fws c18_st (b_rr d))))
+      (delivered c18_st)
+  = [(0, 1, 1060, [4; 5; 6], [1040; 9223372036854775802; 1060]);
+     (1, 2, 1100, [8; 9; 10], [9223372036854775799; 1090; 1100]);
+     (2, 3, 1130, [12; 13; 14], [1120; 1130; 9223372036854775793]);
+     (3, 4, 1180, [16; 17; 18], [1160; 9223372036854775790; 1180]);
+     (4, 5, 1220, [20; 21; 22], [9223372036854775787; 1210; 1220])] /\
+  (* the hypotheses of C18_block_timestamp_in_honest_range hold for every delivered block *)
+  forallb (fun d => let fw := fws c18_st (b_rr d) in
+                    (2 * Z.of_nat (length (filter c18_byz fw)) <? Z.of_nat (length fw)) &&
+                    forallb (fun h => (- 2 ^ 62 <=? h) && (h <=? 2 ^ 62 - 1))
+                            (map (ets c18_st) (filter (fun w => negb (c18_byz w)) fw)))
+          (delivered c18_st) = true.
+Proof.
+  split; [apply ids_determine_distinct; vm_compute; reflexivity|].
+  split; [apply Forall_app; split; [apply hop_ok_inserts; vm_compute; reflexivity|repeat constructor]|].
+  vm_compute. repeat split; reflexivity.
+Qed.
